@@ -169,19 +169,22 @@ def _run(call: GeneratorCall) -> Module:
     # may already hold, once for each Generator that hands it along.
     named_by_generator = m._generated_by is not None
 
-    # Give the result a reference back to the generating `Call`
-    m._generated_by = call
     if named_by_generator:
+        m._generated_by = call
         return m
 
     # Module naming
     # If the Module that comes back is anonymous, start by giving it a name equal to the Generator's
-    if m.name is None:
-        m.name = call.gen.name
+    name = m.name if m.name is not None else call.gen.name
 
     # If it has a nonzero number of parameters, add a unique suffix per its parameter-values
     if hasparams(call.gen.Params):
-        m.name += "(" + _unique_name(call.params) + ")"
+        name += "(" + _unique_name(call.params) + ")"
+
+    # Naming can fail. Only a Module that has its name is marked as generated: a repeat of a failed call fails alike.
+    m.name = name
+    # Give the result a reference back to the generating `Call`
+    m._generated_by = call
     return m
 
 
